@@ -116,11 +116,36 @@ type requiredCheck struct {
 	name string
 	src  srcPred
 	kind string // bool | eq | one
+	// alts: equivalent ways of performing the same check (e.g. bytes.Equal / hmac.Equal /
+	// subtle.ConstantTimeCompare == 1); a passing edge of any of them counts
+	alts []requiredCheck
+}
+
+// bytesEqualCheck: "these two byte strings are equal", in any of the idioms the standard library offers.
+func bytesEqualCheck(name string) requiredCheck {
+	return requiredCheck{name: name, src: callResult("bytes.Equal"), kind: "bool", alts: []requiredCheck{
+		{src: callResult("crypto/hmac.Equal"), kind: "bool"},
+		{src: callResult("crypto/subtle.ConstantTimeCompare"), kind: "one"},
+	}}
+}
+
+// bytesEqualCalls lists the calls in f that compare two byte strings for equality.
+func bytesEqualCalls(f *ssa.Function) []*ssa.Call {
+	var out []*ssa.Call
+	for _, q := range []string{"bytes.Equal", "crypto/hmac.Equal", "crypto/subtle.ConstantTimeCompare"} {
+		out = append(out, callsTo(f, q)...)
+	}
+	return out
 }
 
 // passingEdges finds every If in f whose condition is a function of the check source and
 // returns the edges taken when the check passes.
 func passingEdges(f *ssa.Function, rc requiredCheck) (pass []edge, ifs []*ssa.If) {
+	for _, alt := range rc.alts {
+		p, i := passingEdges(f, alt)
+		pass = append(pass, p...)
+		ifs = append(ifs, i...)
+	}
 	for _, b := range f.Blocks {
 		ifi := lastIf(b)
 		if ifi == nil {
